@@ -23,6 +23,7 @@ func runC05(c *core.Ctx) {
 	c.RuleDoc("R05.1", "typed errors only (no raw error leaves an FS-level entry point)")
 	c.RuleDoc("R05.2", "path fields in the caller's namespace; inner/OS-namespace errors translated with the right pair")
 	c.RuleDoc("R05.3", "mount translator is expansive")
+	c.RuleDoc("R05.5", "cutting a directory prefix handles the directory itself")
 	c.RuleDoc("R05.4", "no path field of a PathError/LinkError can be the empty string")
 	for _, p := range c.Progs {
 		c.SetProg(p)
@@ -50,11 +51,13 @@ func runC05(c *core.Ctx) {
 		}
 		r05Expansive(c, p, eng)
 		r05NonEmpty(c, p)
+		r05TrimHandlesRoot(c, p)
 	}
 	c.Floor("R05.1", 60)
 	c.Floor("R05.2", 60)
 	c.Floor("R05.3", 1)
 	c.Floor("R05.4", 35)
+	c.Floor("R05.5", 1)
 }
 
 func nameParamIdx(fn *ssa.Function) []int {
@@ -518,5 +521,51 @@ func r05NonEmpty(c *core.Ctx, p *load.Program) {
 				}
 			}
 		}
+	}
+}
+
+// r05TrimHandlesRoot (R05.5): where a path is brought back into the caller's namespace by cutting a directory prefix
+// with its separator — strings.TrimPrefix(x, y + "/") — the case x == y (the error is about the directory itself) is
+// handled on its own before: TrimPrefix leaves such an x untouched, and the caller would be told the inner name.
+func r05TrimHandlesRoot(c *core.Ctx, p *load.Program) {
+	for _, fn := range p.SrcFuncs() {
+		root := fn
+		for root.Parent() != nil {
+			root = root.Parent()
+		}
+		if skipPkgForNames(root) {
+			continue
+		}
+		ord := ordinals{}
+		ssax.Instrs(fn, func(ins ssa.Instruction) {
+			cl, ok := ins.(*ssa.Call)
+			if !ok || !ssax.CalleeIs(cl, "strings", "TrimPrefix") {
+				return
+			}
+			bo, ok := cl.Call.Args[1].(*ssa.BinOp)
+			if !ok || bo.Op != token.ADD {
+				return
+			}
+			if s, isC := ssax.ConstString(bo.Y); !isC || s != "/" {
+				return
+			}
+			x, y := cl.Call.Args[0], bo.X
+			key := fname(fn) + "|" + ord.next("trim-dir-prefix")
+			handled := false
+			for _, f := range ssax.FactsAtInstr(cl) {
+				cmp, ok := f.Cond.(*ssa.BinOp)
+				if !ok || (cmp.Op != token.EQL && cmp.Op != token.NEQ) {
+					continue
+				}
+				same := func(a, b ssa.Value) bool {
+					return (ssax.SameValue(a, x) && ssax.SameValue(b, y)) || (ssax.SameValue(a, y) && ssax.SameValue(b, x))
+				}
+				if same(cmp.X, cmp.Y) && (cmp.Op == token.EQL) != f.Val {
+					handled = true
+				}
+			}
+			c.Check(handled, "R05.5", key, p.Pos(cl.Pos()), "the case 'the path is the directory itself' is answered before the prefix is cut",
+				fmt.Sprintf("%s cuts %s + \"/\" off %s without having handled %s == %s: when the failing path is the directory itself, TrimPrefix leaves it as it is and the caller is told the inner name (the view's base directory) instead of \".\"", fname(fn), vname(y), vname(x), vname(x), vname(y)))
+		})
 	}
 }
